@@ -11,7 +11,9 @@ KNOWN_CLASSES = {
 SPEC = {
     "tables": [],
     "props_module": PROPS_MODULE,
-    "required": [],
+    "required": ["square_exact_prim", "u2_square_phase", "square_term", "square_spec_partial",
+                 "cu2_square_wrong_of_phase", "cu2_square_wrong", "square_reference_refused",
+                 "square_loop_keeps_body", "square_unimplemented", "complex_is_model"],
     "drivers": ["drv_c16"],
     "harness_bin": "c16",
     "eq": vlib.hexfloat_eq(1e-12),
